@@ -37,7 +37,7 @@ def bounds(tier):
 def goals(tier):
     return ["accepted-by-signature", "rejected-by-upstream-letter", "rejected-by-downstream-letter", "degenerate-signature-accepts",
             "degenerate-signature-rejects", "vector-part", "characterize-found", "characterize-runtimeerror", "characterize-concrete-root",
-            "characterize-several-candidates-accept", "other-kind-record"]
+            "characterize-several-candidates-accept", "other-kind-record", "signature-free-class-asked-first"]
 
 
 # ---------------------------------------------------------------------------------------------
@@ -245,6 +245,32 @@ def run_unit(unit, st, tier):
         for up in W:
             for down in W:
                 check_typing(st, cls, upsig, downsig, cls.cutter.__name__, k, up, down, tier, dict(family="kit", cls=arg))
+        # the order in which the property statement reads: the signature-free class is asked first, then the part class,
+        # starting from classes that have not compiled anything yet (no priming by the harness)
+        parents = [c for c in cls.__mro__[1:] if c in gen.kit_classes()]
+        G = generic_for(cls)
+        for up in W:
+            for down in W:
+                s = record_for(cls.cutter.__name__, k, up, down)
+                if s is None:
+                    continue
+                gen.fresh(cls)
+                try:
+                    for P in parents:
+                        P(CircularRecord(Seq(s), id="c5p")).is_valid()
+                    gobs = typed(G, s)
+                    pobs = typed(cls, s)
+                except Exception as e:
+                    st.violation("order", "raises-" + type(e).__name__, dict(family="kit-order", cls=arg, up=up, down=down, seq=s), "verdicts", str(e)[:200])
+                    continue
+                exp = gobs[0] is True and rm.iupac_match(upsig, gobs[1]) and rm.iupac_match(downsig, gobs[2])
+                st.scenario("order-accept" if exp else "order-reject", None, calls=2 + len(parents))
+                st.nontrivial += 1
+                st.goal("signature-free-class-asked-first")
+                if (pobs[0] is True) != exp:
+                    st.violation("order", "verdict-differs-when-the-signature-free-class-is-asked-first", dict(family="kit-order", cls=arg, up=up, down=down, seq=s,
+                                 parents=[p.__name__ for p in parents]), exp, pobs)
+        gen.prime([cls, G])
         other = "vector" if k == "module" else "module"
         st.goal("other-kind-record")
         for up in W[:4]:
@@ -402,6 +428,20 @@ def replay(scn, sub, st):
             root = getattr(importlib.import_module("moclo.kits." + modname), name)
         gen.prime([c for c in root.__subclasses__()])
         check_characterize(st, root, name, scn["seq"], scn)
+        return
+    if fam == "kit-order":
+        cls = gen.class_by_name(scn["cls"])
+        upsig, downsig = cls.signature
+        G = generic_for(cls)
+        gen.prime([G])
+        gen.fresh(cls)
+        s = scn["seq"]
+        for P in [c for c in cls.__mro__[1:] if c in gen.kit_classes()]:
+            P(CircularRecord(Seq(s), id="c5p")).is_valid()
+        gobs, pobs = typed(G, s), typed(cls, s)
+        exp = gobs[0] is True and rm.iupac_match(upsig, gobs[1]) and rm.iupac_match(downsig, gobs[2])
+        if (pobs[0] is True) != exp:
+            st.violation(sub, "verdict-differs-when-the-signature-free-class-is-asked-first", scn, exp, pobs)
         return
     if fam == "kit":
         cls = gen.class_by_name(scn["cls"])
